@@ -54,7 +54,7 @@ pub fn run(ctx: &Ctx) -> i32 {
     }
     ctx.sample(json!({"part": "calendar", "month": 3, "day": 31, "expected_nday": 90}));
     // ---------------- (2) sun position grid
-    let step: f64 = ctx.tier.pick(2.0, 0.5);
+    let step: f64 = ctx.tier.pick(1.0, 0.5);
     let lats: Vec<f64> = { let mut v = vec![]; let mut x = -66.0; while x <= 66.0 + 1e-9 { v.push(x); x += step; } v };
     let decls: Vec<f64> = { let mut v = vec![]; let mut x = -23.45; while x <= 23.45 + 1e-9 { v.push(x); x += step; } v.push(23.45); v };
     let omegas: Vec<f64> = { let mut v = vec![]; let mut x = -180.0 + step; while x < 180.0 - 1e-9 { v.push(x); x += step; } v };
